@@ -419,10 +419,12 @@ var zzC13RawText = map[string]string{
 	"nlonly":   `"\n"`,
 	"nl2":      `"\n\n"`,
 	"leadnl":   `"\nx"`,
+	"indnl":    `"\n  x\n"`,
 }
 
 // zzC13ML spells the multi-line strings of Migrate.tla's MLKinds.
-var zzC13ML = map[string]string{"tabml": "\tA\nB\n", "nlonly": "\n", "nl2": "\n\n", "leadnl": "\nx"}
+var zzC13ML = map[string]string{"tabml": "\tA\nB\n", "nlonly": "\n", "nl2": "\n\n", "leadnl": "\nx",
+	"indnl": "\n  x\n"}
 
 // zzC13Unraw replaces raw values by placeholders for the encoder.
 func zzC13Unraw(v any) (u any) {
